@@ -127,6 +127,14 @@ CLAIMED['C18'] = dict(
     technique=PYVC + '; opaque tokens with an uninterpreted integer value; bounded boundary sweeps through the real parser, API handlers and encoder against an RFC reference decoder, history pairs on one API object',
 )
 
+CLAIMED['C13'] = dict(
+    category='exploration',
+    text='BOUNDED ONLY (no deductive obligations yet). (1) events-from-wire: every raw message recorded under /repo/qa (encoding, api, decoding: all families the project tests, ~200 distinct), the same with printable runs replaced by hostile bytes of the same length, generated OPENs (host name, domain, software version), NOTIFICATIONs (shutdown communication, data), OPERATIONAL advisories and BGP-LS node name / opaque TLVs carrying quotes, backslashes, CR/LF, NUL, DEL, C1 controls, U+2028, invalid UTF-8, JSON punctuation and a forged event line, and generated UPDATEs with one or two malformed attributes; each decoded by the real Message.unpack, rendered by the four real encoders (JSON v6, JSON v4, Text, Text v4) the way Processes does and queued by the real Processes.write. Oracle independent of the encoders: ASCII, one line, parses, no duplicate key in any object, envelope present; text: no control character, same number of lines as the same message with a harmless string; a peer-chosen string changes only string values, never the key structure. (2) oneline-every-code-point: the real oneline() on all 1,114,112 one-character strings -- complete for the per-character claim; oneline maps characters independently (sampled), so every text field that goes through it is printable ASCII.',
+    note='Exploration level, not proof. Not covered: that every peer-derived field of the text encoders goes through oneline() and every string of the JSON encoder through json.dumps (a frame / fragment-typing obligation over response/json.py and the json() methods of ~200 classes: not built); families and sub-TLVs absent from the QA corpus; the negotiated / fsm / signal events. Three in-memory harness canaries (JSON strings unescaped, text unescaped, duplicated attribute members) must be reported on every run. One genuine defect repaired (c02f9be: non-ASCII printable characters made Processes.write raise).',
+    ref='DESIGN.md §6 C13, §11.13',
+    technique='bounded stand-in only: QA corpus + hostile-string generators through the real decoders, encoders and Processes.write with an independent well-formedness oracle; exhaustive evaluation of oneline() per code point (contract-based proof of the assemblers not built yet)',
+)
+
 NOT_YET = 'check not built yet in this session (planned in DESIGN.md §6); not claimed until its obligations are discharged'
 NA = {}
 
